@@ -49,14 +49,14 @@ func (f *Revappend) Call(s *slip.Scope, args slip.List, depth int) slip.Object {
 	if !ok {
 		slip.TypePanic(s, depth, "list", args[0], "list")
 	}
-	if 0 < len(list) {
-		nl := make(slip.List, len(list))
-		copy(nl, list)
-		list = nl
-		max := len(list) - 1
-		for i := max / 2; 0 <= i; i-- {
-			list[i], list[max-i] = list[max-i], list[i]
-		}
+	// Always work on a copy, an empty tail of another list still shares its
+	// backing array.
+	nl := make(slip.List, len(list))
+	copy(nl, list)
+	list = nl
+	max := len(list) - 1
+	for i := max / 2; 0 <= i; i-- {
+		list[i], list[max-i] = list[max-i], list[i]
 	}
 	switch ta := args[1].(type) {
 	case slip.List:
